@@ -167,3 +167,19 @@ Definition params_to_go (p : ent_params) : go_Params :=
      Params_DecisionTimeLimit := ep_time_limit p |}.
 
 Definition enterprise_ErrInvalidParams : Z := ERR_ENT.     (* fmt.Errorf / errors.New in Params.Validate *)
+
+(* ---- the supply queries (keeper/locked.go, keeper/grpc_query.go) ---- *)
+(* x/bank GetSupply / GetBalance: a coin of the asked denomination, zero when nothing is recorded *)
+Definition bank_GetSupply (w : eworld) (d : denom) : go_coin := (d, supply_of (ew_bank w) d).
+Definition bank_GetBalance (w : eworld) (a : addr) (d : denom) : go_coin := (d, balance (ew_bank w) a d).
+(* the bank's supply store as a listing: one entry per denomination with a non-zero supply (setSupply deletes a zero
+   entry).  Denominations are abstract, so the order of the listing carries no meaning. *)
+Definition supply_listing (b : bank) : list go_coin :=
+  filter (fun c => negb (snd c =? 0)) (map (fun d => (d, supply_of b d)) (nodup Z.eq_dec (akeys (supply b)))).
+(* GetPaginatedTotalSupply: query.Paginate over the supply store; the page request is what it selects (lib/GoSdk.v).
+   On error the Go function returns (nil, nil, err). *)
+Definition bank_GetPaginatedTotalSupply (w : eworld) (pg : go_PageRequest) : outcome (list go_coin * go_PageResponse) :=
+  pg (supply_listing (ew_bank w)).
+(* gRPC status codes used as error classes by the query server *)
+Definition grpc_codes_InvalidArgument : Z := 3.
+Definition grpc_codes_Internal : Z := 13.
